@@ -40,6 +40,10 @@ class RecEkf:
         return ((state, tag), covariance)
 
     def sensor_model(self, state, covariance, *, sensor_key, sensor_reading):
+        if isinstance(sensor_key, int) and sensor_key >= 100:
+            # a reading this stand-in filter REJECTS: like the real filter's innovation filtering, it hands back the very objects
+            # it was given
+            return (state, covariance)
         return ((state, f"s {sensor_key}"), covariance)
 
     def make_reading(self, key, **kwargs):
